@@ -4,6 +4,7 @@ package main
 // materialisation into real sdk.Msg values.
 
 import (
+	"math/big"
 	"encoding/binary"
 	"encoding/hex"
 	"encoding/json"
@@ -74,6 +75,7 @@ type ProofSpec struct {
 	RawSig   string `json:"raw_sig,omitempty"`   // hex: use these bytes as the signature
 	NoSig    bool   `json:"no_sig,omitempty"`    // empty signature
 	SeqOfDID string `json:"seq_of_did,omitempty"` // take "cur" from this DID instead of the message's
+	HighS    bool   `json:"high_s,omitempty"`    // the other (r, N-s) form of the genuine signature: the same ECDSA signature in its malleable, non-canonical encoding
 	ContentDoc *DocSpec `json:"content_doc,omitempty"` // the proof is made over THIS document (a genuine proof of another document of the same DID, transplanted)
 }
 
@@ -223,6 +225,17 @@ func (bc *BuildCtx) proof(p *ProofSpec, did string, content *didtypes.DIDDocumen
 	sig, err := key.Sign(DidSignBytes(c, seq))
 	if err != nil {
 		panic(err)
+	}
+	if p.HighS && len(sig) == 64 {
+		// secp256k1 group order N; s' = N - s
+		n, _ := new(big.Int).SetString("FFFFFFFFFFFFFFFFFFFFFFFFFFFFFFFEBAAEDCE6AF48A03BBFD25E8CD0364141", 16)
+		sv := new(big.Int).SetBytes(sig[32:])
+		sv.Sub(n, sv)
+		out := append([]byte(nil), sig[:32]...)
+		sb := sv.Bytes()
+		out = append(out, make([]byte, 32-len(sb))...)
+		out = append(out, sb...)
+		sig = out
 	}
 	return p.MethodID, sig
 }
